@@ -1961,7 +1961,6 @@ def run_text_and_encoding(chk, quick):
 
 # ------------------------------------------------------------------ the command-line entry point and histories of loads
 
-FINDING_DIRECTIVE = "yaml-directive-leak"
 
 
 def run_main(text, doc_bytes):
@@ -2137,44 +2136,48 @@ YAML_BODIES = [
 SENSITIVE = ["yes", "no", "on", "off", "010", "0o10", "1_000", "true", "8", "'yes'", "y", "~", "1:30", "0x10"]
 
 
+def run_load_regressions(chk, ref):
+    """corpus histories of loads (fixed 860d3d2): every load must give the fresh-process digest; run before anything else"""
+    for c in load_corpus():
+        if c.get("op") != "loads-regress":
+            continue
+        for h in c["histories"]:
+            refs = ref.run([{"entry": "text", "text": t} for t in h["texts"]])
+            ok = True
+            for i, (t, want) in enumerate(zip(h["texts"], refs)):
+                got = do_call({"entry": "text", "text": t})
+                if got["verdict"] != want["verdict"]:
+                    ok = False
+                    chk.failure("regression witness %s (%s): load %d of %d verifies to %s, loaded first in a fresh process to %s"
+                                % (c["file"], h["what"], i + 1, len(h["texts"]), got["verdict"][:40], want["verdict"][:40]),
+                                {"op": "loads", "texts": h["texts"]})
+            chk.witnesses.append({"corpus": c["file"], "case": h["what"], "holds": ok})
+
+
 def run_load_histories(chk, ref, quick):
-    """2-4 loads in one process, with and without %YAML directives: the digest of a text is a function of the text alone"""
+    """2-4 loads in one process, with and without %YAML directives: the digest of a text is a function of the text alone.
+    The histories run on the module state as the earlier streams and histories left it (nothing is reset in between)."""
     rng = chk.rng
     n = 45 if quick else 800
-    try:
-        for _ in range(n):
-            texts = []
-            pv.load_playbook_yaml("%YAML 1.2\n---\n- reset\n")          # every history starts from the initial reading
-            for _j in range(rng.randint(2, 4)):
-                body = rng.choice(YAML_BODIES)
-                body = body % tuple(rng.choice(SENSITIVE) for _k in range(body.count("%s")))
-                texts.append(rng.choice(["", "", "%YAML 1.1\n---\n", "%YAML 1.1\n---\n", "%YAML 1.2\n---\n"]) + body)
-            if rng.random() < 0.3:
-                texts[-1] = texts[0].split("---\n")[-1]              # the first document again, without its directive
-            refs = ref.run([{"entry": "text", "text": t} for t in texts])
-            for i, (t, want) in enumerate(zip(texts, refs)):
-                got = do_call({"entry": "text", "text": t})
-                chk.case(("loads", tuple(texts[:i + 1])), True)
-                chk.count("loads:%s/%s" % ("directive-" + t[6:9] if t.startswith("%YAML") else "no-directive", got["verdict"].split(":")[0]))
-                if got["verdict"] != want["verdict"] or got["seen"] != want["seen"]:
-                    leak = (not t.startswith("%YAML")) and any(x.startswith("%YAML 1.1") for x in texts[:i])
-                    chk.failure("load %d of %d in one process: the text verifies to %s, loaded first in a fresh process it verifies to %s"
-                                % (i + 1, len(texts), got["verdict"][:40], want["verdict"][:40]),
-                                {"op": "loads", "texts": texts}, finding=FINDING_DIRECTIVE if leak else None)
-        # witness of the known finding
-        body = YAML_BODIES[0] % ("yes", "010")
-        want = ref.run([{"entry": "text", "text": body}])[0]
-        do_call({"entry": "text", "text": "%YAML 1.1\n---\n" + body})
-        got = do_call({"entry": "text", "text": body})
-        rep = got["verdict"] != want["verdict"]
-        chk.witnesses.append({"finding": FINDING_DIRECTIVE, "reproduces": rep, "fresh": want["verdict"][:24], "after a %YAML 1.1 document": got["verdict"][:24]})
-        if rep:
-            chk.finding_reproduced(FINDING_DIRECTIVE)
-    finally:
-        try:
-            pv.load_playbook_yaml("%YAML 1.2\n---\n- reset\n")        # leave this process's loader in its initial reading
-        except Exception:
-            pass
+    before = []
+    for _ in range(n):
+        texts = []
+        for _j in range(rng.randint(2, 4)):
+            body = rng.choice(YAML_BODIES)
+            body = body % tuple(rng.choice(SENSITIVE) for _k in range(body.count("%s")))
+            texts.append(rng.choice(["", "", "%YAML 1.1\n---\n", "%YAML 1.1\n---\n", "%YAML 1.2\n---\n"]) + body)
+        if rng.random() < 0.3:
+            texts[-1] = texts[0].split("---\n")[-1]              # the first document again, without its directive
+        refs = ref.run([{"entry": "text", "text": t} for t in texts])
+        for i, (t, want) in enumerate(zip(texts, refs)):
+            got = do_call({"entry": "text", "text": t})
+            chk.case(("loads", tuple(texts[:i + 1])), True)
+            chk.count("loads:%s/%s" % ("directive-" + t[6:9] if t.startswith("%YAML") else "no-directive", got["verdict"].split(":")[0]))
+            if got["verdict"] != want["verdict"] or got["seen"] != want["seen"]:
+                chk.failure("load %d of %d in one process: the text verifies to %s, loaded first in a fresh process it verifies to %s"
+                            % (i + 1, len(texts), got["verdict"][:40], want["verdict"][:40]),
+                            {"op": "loads", "before": before, "texts": texts})      # `before`: what this process loaded just before
+        before = texts
 
 
 # ------------------------------------------------------------------ the check
@@ -2274,6 +2277,7 @@ def _run(chk, ref):
     n_edits = 5 if quick else 8
     n_verify = 350 if quick else 4000
     chk.lean()
+    run_load_regressions(chk, ref)       # first calls of this process into the verifier
 
     corpus = load_corpus()
 
@@ -2576,6 +2580,8 @@ def replay(data):
         try:
             refs = ref.run([{"entry": "text", "text": t} for t in c["texts"]])
             bad = False
+            for t in c.get("before") or []:
+                do_call({"entry": "text", "text": t})
             for i, (t, want) in enumerate(zip(c["texts"], refs)):
                 got = do_call({"entry": "text", "text": t})
                 print("load %d (%s): %s; first in a fresh process: %s" % (i + 1, t.split("\n")[0][:12] if t.startswith("%YAML") else "no directive",
